@@ -1,7 +1,169 @@
 import KM.Driver.Core
-/-! Driver for C19 (stub until the property's model is built). -/
-namespace KM.Driver.C19
+import KM.Model.Client
+/-! Driver for C19.
 
-def handler (_mode : String) : Option Handler := none
+model ops
+* `offer <pref>`                                  keys the client generates for a preference
+* `line <hex key file> <parsed>`                  verdict of getValidSSHPublicKey (`parsed` = what
+                                                  ssh.ParseAuthorizedKey made of the file: `kind:bits:e` or `none`)
+* `certgen <type> <ed25519CA> <hex key file> <parsed>`   status of certGenHandler for an authenticated POST
+* `a reset | a add <comment> <id> cert|plain | a upsert <comment> <id> | a list`   agent
+* `install <pref> agent|noagent <ca> full|ssh`    what the client leaves on disk / in the agent
+
+judge ops: `offered …`, `agent …`, `wire …` — the predicates of c19_offer_accepted, c19_agent and
+the runtime absence check. -/
+namespace KM.Driver.C19
+open KM.Util KM.Client KM.ClientSite
+
+def parseKind : String → Option KeyKind
+  | "rsa" => some .rsa | "ecdsa" => some .ecdsa | "ed25519" => some .ed25519 | "dsa" => some .dsa
+  | "other" => some .other | _ => none
+
+def kindStr : KeyKind → String
+  | .rsa => "rsa" | .ecdsa => "ecdsa" | .ed25519 => "ed25519" | .dsa => "dsa" | .other => "other"
+
+/-- `kind:bits:e`; `none` ↦ `some none` -/
+def parseKey (s : String) : Option (Option Key) :=
+  if s == "none" then some none else
+  match s.splitOn ":" with
+  | [k, b, e] => do pure (some ⟨← parseKind k, ← b.toNat?, ← e.toNat?⟩)
+  | _ => none
+
+def keyStr (k : Key) : String := s!"{kindStr k.kind}:{k.bits}:{k.exponent}"
+
+def parsePref : String → Option Pref
+  | "rsa" => some .rsa | "p256" => some .p256 | "p384" => some .p384 | _ => none
+
+def parseCert : String → CertType
+  | "ssh" => .ssh | "x509" => .x509 | "x509-kubernetes" => .x509Kubernetes | _ => .unknown
+
+def verdictStr : SshVerdict → String
+  | .ok => "ok" | .badRe => "badRe" | .unparseable => "unparseable" | .weak => "weak"
+
+def alts : List (List Char) := KM.Gen.sshKeyTypeAlternation
+
+/-- status codes of certGenHandler after authentication, for a key file -/
+def certgenStatus (cert : CertType) (ca : Bool) (line : List Char) (parsed : Option Key) : Nat :=
+  match cert with
+  | .ssh =>
+    if sshVerdict alts line parsed != .ok then 400
+    else match parsed with
+      | some k => if k.kind == KeyKind.ed25519 && !ca then 422 else 200
+      | none => 400
+  | .x509 | .x509Kubernetes =>
+    match parsed with
+    | some k => if strong k then 200 else 400
+    | none => 400
+  | .unknown => 400
+
+/-! ### agent stream -/
+
+def entryStr (e : Entry) : String :=
+  s!"{hex (String.ofList e.comment)}:{e.blob}:{if e.isCert then "c" else "p"}"
+
+def insertStr (k : String) : List String → List String
+  | [] => [k]
+  | a :: r => if k < a then k :: a :: r else a :: insertStr k r
+
+def sortStrs (l : List String) : List String := l.foldl (fun acc s => insertStr s acc) []
+
+def listStr (a : List Entry) : String :=
+  String.intercalate " " ("list" :: sortStrs (a.map entryStr))
+
+def parseEntry (s : String) : Option Entry :=
+  match s.splitOn ":" with
+  | [c, id, k] => do pure ⟨(← unhex c).toList, ← id.toNat?, k == "c"⟩
+  | _ => none
+
+def parseEntries (s : String) : Option (List Entry) :=
+  if s == "-" then some [] else (s.splitOn ",").mapM parseEntry
+
+def astep (a : List Entry) : List String → List Entry × String
+  | ["reset"] => ([], "reset")
+  | ["add", c, id, k] =>
+    match unhex c, id.toNat? with
+    | some c, some id =>
+      if k == "cert" || k == "plain" then
+        let a' := a ++ [⟨c.toList, id, k == "cert"⟩]
+        (a', listStr a')
+      else (a, "bad-op")
+    | _, _ => (a, "bad-op")
+  | ["upsert", c, id] =>
+    match unhex c, id.toNat? with
+    | some c, some id => let a' := agentUpsert a ⟨c.toList, id, true⟩; (a', listStr a')
+    | _, _ => (a, "bad-op")
+  | ["list"] => (a, listStr a)
+  | _ => (a, "bad-op")
+
+/-! ### what an installation leaves behind (setupCerts / insertSSHCertIntoAgentORWriteToFilesystem) -/
+
+def installOut (pref : String) (useAgent ca full : Bool) : String :=
+  let sshDir := if full then ".ssh/" else "ssh/"
+  let sshFiles (name : String) : List String := [s!"{sshDir}keymaster-{name}-cert.pub:644", s!"{sshDir}keymaster-{name}:600"]
+  let tls : List String :=
+    if full then [".ssl/keymaster-kubernetes.cert:644", ".ssl/keymaster.cert:644", ".ssl/keymaster.key:600"] else []
+  let names : List String := (if full && ca then ["ed25519"] else []) ++ [pref]
+  let files := (if useAgent then [] else names.flatMap sshFiles) ++ tls
+  let ag := if useAgent then names.map fun n => s!"{hex s!"keymaster-{n}-username"}:cert" else []
+  s!"files={if files.isEmpty then "-" else ",".intercalate (sortStrs files)} agent={if ag.isEmpty then "-" else ",".intercalate (sortStrs ag)}"
+
+def mstep (a : List Entry) : List String → List Entry × String
+  | "a" :: rest => astep a rest
+  | ["offer", p] =>
+    match parsePref p with
+    | some p =>
+      match mainKey p with
+      | some k => (a, s!"x509={keyStr k} sshmain={keyStr k} ed={keyStr ed25519Key}")
+      | none => (a, "error")
+    | none => (a, "error")
+  | ["line", h, p] =>
+    match unhex h, parseKey p with
+    | some l, some pk => (a, verdictStr (sshVerdict alts l.toList pk))
+    | _, _ => (a, "bad-op")
+  | ["certgen", ty, ca, h, p] =>
+    match parseBool ca, unhex h, parseKey p with
+    | some ca, some l, some pk => (a, toString (certgenStatus (parseCert ty) ca l.toList pk))
+    | _, _, _ => (a, "bad-op")
+  | ["install", pref, mode, ca, what] =>
+    match parseBool ca with
+    | some ca =>
+      if (mode == "agent" || mode == "noagent") && (what == "full" || what == "ssh") && (parsePref pref).isSome then
+        (a, installOut pref (mode == "agent") ca (what == "full"))
+      else (a, "bad-op")
+    | none => (a, "bad-op")
+  | _ => (a, "bad-op")
+
+/-! ### judge -/
+
+/-- c19_offer_accepted on what the real server answered to the real client's key -/
+def judgeOffered (mandatory ca : Bool) (status : String) : String :=
+  if (mandatory || ca) && status != "200" then s!"viol refused status={status}" else "ok"
+
+/-- c19_agent: the agent afterwards holds the old entries that are not certificates with the
+comment, plus the new one (as multisets, the agent's order is not significant) -/
+def judgeAgent (new : Entry) (before after : List Entry) : String :=
+  let expected := before.filter (fun e => !isDup new e) ++ [new]
+  if sortStrs (after.map entryStr) != sortStrs (expected.map entryStr) then
+    (if (after.filter (isDup new)).length != 1 then s!"viol certificates-with-comment={(after.filter (isDup new)).length}"
+     else "viol other-entries-changed")
+  else "ok"
+
+def judge : List String → String
+  | ["offered", _pref, _cert, mand, ca, status] =>
+    match parseBool mand, parseBool ca with
+    | some m, some c => judgeOffered m c status
+    | _, _ => "bad-op"
+  | ["agent", c, id, before, after] =>
+    match unhex c, id.toNat?, parseEntries before, parseEntries after with
+    | some c, some id, some b, some af => judgeAgent ⟨c.toList, id, true⟩ b af
+    | _, _, _, _ => "bad-op"
+  | ["wire", leaks, privOther] =>
+    if leaks == "0" && privOther == "0" then "ok" else s!"viol leaks={leaks} private-key-files-not-0600={privOther}"
+  | _ => "bad-op"
+
+def handler (mode : String) : Option Handler :=
+  if mode == "model" then some { σ := List Entry, init := [], step := mstep }
+  else if mode == "judge" then some (.pure judge)
+  else none
 
 end KM.Driver.C19
